@@ -145,7 +145,7 @@ fn subsets(n: usize, r: &mut SmallRng, cap: usize) -> Vec<Vec<usize>> {
     all
 }
 
-pub fn c03(seed: u64, thorough: bool, tw: &mut TraceWriter) -> Cov {
+pub fn c03(seed: u64, thorough: bool, maxruns: u64, tw: &mut TraceWriter) -> Cov {
     let mut master = SmallRng::seed_from_u64(seed);
     let mut cov = Cov::default();
     let sizes: &[usize] = if thorough { &[2, 3, 4, 5, 6, 8] } else { &[2, 3, 4, 5] };
@@ -183,6 +183,9 @@ pub fn c03(seed: u64, thorough: bool, tw: &mut TraceWriter) -> Cov {
             let estride = if thorough { 1 } else { 2 };
             for k in (0..total).step_by(estride) {
                 for leave in [false, true] {
+                    if cov.runs >= maxruns {
+                        return cov;
+                    }
                     let scfg = SimCfg { n, cfg: cfg.clone(), codec: CodecKind::Hand(Mode::Fixed), handler: HandlerCfg::default(), pol: Policy::None, seed: cseed, lat, late: 0 };
                     let mut r = SmallRng::seed_from_u64(cseed ^ 0x5eed);
                     let mut sim = Sim::new(scfg, run, "c03", json!({"fault_at": k, "leave": leave, "early": true}), tw);
@@ -236,6 +239,9 @@ pub fn c03(seed: u64, thorough: bool, tw: &mut TraceWriter) -> Cov {
                 for leave in [false, true] {
                     if !thorough && master.random_range(0..2) == 0 {
                         continue;
+                    }
+                    if cov.runs >= maxruns {
+                        return cov;
                     }
                     let Some(mut sim) = formed(n, &cfg, Policy::None, cseed, lat, run, "c03", json!({"fault_at": k, "leave": leave}), tw) else { continue };
                     run += 1;
@@ -345,7 +351,7 @@ fn mutual_down(sim: &Sim, groups: &[u8]) -> bool {
     })
 }
 
-pub fn c05(seed: u64, thorough: bool, tw: &mut TraceWriter) -> Cov {
+pub fn c05(seed: u64, thorough: bool, maxruns: u64, tw: &mut TraceWriter) -> Cov {
     let mut master = SmallRng::seed_from_u64(seed);
     let mut cov = Cov::default();
     let sizes: &[usize] = if thorough { &[3, 4, 5, 6, 8] } else { &[3, 4, 5] };
@@ -365,6 +371,9 @@ pub fn c05(seed: u64, thorough: bool, tw: &mut TraceWriter) -> Cov {
         for groups in shapes {
             let heals = if thorough { 4 } else { 2 };
             for h in 0..heals {
+                if cov.runs >= maxruns {
+                    return cov;
+                }
                 let mut cfg = base_cfg();
                 cfg.notifydown = true;
                 cfg.pad = Some((4000, 2));
